@@ -6,6 +6,8 @@ package symx
 // encoded form is an opaque *handle* living in a []byte of length 1.
 
 import (
+	"crypto/sha256"
+	"encoding/hex"
 	"fmt"
 	"go/token"
 	"go/types"
@@ -613,4 +615,163 @@ func registerCodec(ex *Explorer) {
 		return handleBytes(&handle{kind: "hash", snap: s})
 	})
 	registerRLP(ex)
+}
+
+// snapDiff describes the first structural difference (debugging aid).
+func snapDiff(a, b *snap, path string) string {
+	if a == nil || b == nil {
+		return fmt.Sprintf("%s: nil-ness %v/%v", path, a == nil, b == nil)
+	}
+	if a.kind != b.kind {
+		return fmt.Sprintf("%s: kind %c vs %c", path, a.kind, b.kind)
+	}
+	switch a.kind {
+	case 'I', 'U':
+		if Eq(a.term, b.term).isFalse() {
+			return fmt.Sprintf("%s: %s vs %s", path, clip(a.term.String(), 60), clip(b.term.String(), 60))
+		}
+	case 'T':
+		if a.str != b.str {
+			return fmt.Sprintf("%s: %q vs %q", path, clip(a.str, 40), clip(b.str, 40))
+		}
+	case 'B':
+		if len(a.bytes) != len(b.bytes) {
+			return fmt.Sprintf("%s: len %d vs %d", path, len(a.bytes), len(b.bytes))
+		}
+		for i := range a.bytes {
+			if Eq(termOf(a.bytes[i]), termOf(b.bytes[i])).isFalse() {
+				return fmt.Sprintf("%s: byte %d differs (%s vs %s)", path, i, toString(a.bytes[i]), toString(b.bytes[i]))
+			}
+		}
+	case 'H':
+		if a.h != b.h {
+			if a.h.kind != b.h.kind {
+				return fmt.Sprintf("%s: handle kind %s vs %s", path, a.h.kind, b.h.kind)
+			}
+			return snapDiff(a.h.snap, b.h.snap, path+"/"+a.h.kind)
+		}
+	case 'S', 'L':
+		if len(a.elems) != len(b.elems) {
+			return fmt.Sprintf("%s: %d vs %d elems", path, len(a.elems), len(b.elems))
+		}
+		for i := range a.elems {
+			n := fmt.Sprint(i)
+			if a.kind == 'S' {
+				n = a.names[i]
+			}
+			if d := snapDiff(a.elems[i], b.elems[i], path+"."+n); d != "" {
+				return d
+			}
+		}
+	case 'M':
+		if len(a.keys) != len(b.keys) {
+			return fmt.Sprintf("%s: %d vs %d keys", path, len(a.keys), len(b.keys))
+		}
+		for i := range a.elems {
+			if d := snapDiff(a.elems[i], b.elems[i], path+"["+toString(a.keys[i])+"]"); d != "" {
+				return d
+			}
+		}
+	case 'D':
+		return snapDiff(a.elems[0], b.elems[0], path+".(dyn)")
+	case 'V':
+		if toString(a.raw) != toString(b.raw) {
+			return fmt.Sprintf("%s: raw %s vs %s", path, clip(toString(a.raw), 40), clip(toString(b.raw), 40))
+		}
+	}
+	return ""
+}
+
+// ---- content fingerprints (A-HASH: a hash is an injective function of content) ----
+
+func termFingerprint(t *Term, memo map[*Term]string) string {
+	if s, ok := memo[t]; ok {
+		return s
+	}
+	var s string
+	switch t.op {
+	case "const":
+		s = "c" + t.c.String()
+	case "var":
+		s = "v" + t.name
+	default:
+		parts := []string{t.op, t.name}
+		for _, a := range t.args {
+			parts = append(parts, termFingerprint(a, memo))
+		}
+		sum := sha256.Sum256([]byte(strings.Join(parts, "|")))
+		s = "t" + hex.EncodeToString(sum[:12])
+	}
+	memo[t] = s
+	return s
+}
+
+func snapFingerprint(s *snap, memo map[*Term]string, w *strings.Builder) {
+	if s == nil {
+		w.WriteString("nil;")
+		return
+	}
+	w.WriteByte(s.kind)
+	switch s.kind {
+	case 'I', 'U':
+		w.WriteString(termFingerprint(s.term, memo))
+	case 'T':
+		fmt.Fprintf(w, "%q", s.str)
+	case 'B':
+		for _, b := range s.bytes {
+			if h, ok := b.(*handle); ok {
+				w.WriteString("h(")
+				snapFingerprint(h.snap, memo, w)
+				w.WriteString(")")
+			} else {
+				w.WriteString(termFingerprint(termOf(b), memo))
+			}
+			w.WriteByte(',')
+		}
+	case 'H':
+		w.WriteString(s.h.kind + "(")
+		snapFingerprint(s.h.snap, memo, w)
+		w.WriteString(")")
+	case 'S', 'L':
+		for i, e := range s.elems {
+			if s.kind == 'S' {
+				w.WriteString(s.names[i] + "=")
+			}
+			snapFingerprint(e, memo, w)
+			w.WriteByte(',')
+		}
+	case 'M':
+		for i, e := range s.elems {
+			w.WriteString(toString(s.keys[i]) + "=")
+			snapFingerprint(e, memo, w)
+			w.WriteByte(',')
+		}
+	case 'D':
+		w.WriteString(s.typ.String())
+		snapFingerprint(s.elems[0], memo, w)
+	case 'V':
+		if bs, ok := s.raw.([]value); ok {
+			for _, b := range bs {
+				if h, ok := b.(*handle); ok {
+					w.WriteString("h(")
+					snapFingerprint(h.snap, memo, w)
+					w.WriteString(")")
+				} else {
+					w.WriteString(toString(b))
+				}
+				w.WriteByte(',')
+			}
+		} else {
+			w.WriteString(toString(s.raw))
+		}
+	}
+	w.WriteByte(';')
+}
+
+// handleDigest is a 32-byte content hash of a handle.
+func handleDigest(h *handle) [32]byte {
+	var w strings.Builder
+	w.WriteString(h.kind + ":")
+	snapFingerprint(h.snap, map[*Term]string{}, &w)
+	return sha256.Sum256([]byte(w.String()))
 }
